@@ -5,6 +5,7 @@ import (
 	"encoding/binary"
 	"fmt"
 	"runtime"
+	"runtime/debug"
 	"testing"
 
 	"rendsim/kernel"
@@ -27,6 +28,14 @@ func binHdr(op uint8, keyLen uint16, extLen uint8, total uint32, opaque uint32) 
 }
 
 func execC11(t *testing.T, p Plan, src kernel.Source) Result {
+	var big bool
+	defer func() {
+		if big {
+			// a frame may legitimately declare (and make rend allocate) gigabytes; give the
+			// memory back before the next run so that parallel workers do not pile it up
+			debug.FreeOSMemory()
+		}
+	}()
 	return inBubble(t, p.Seed, src, func(w *kernel.World, res *Result) {
 		w.LogEvents = p.X["log"] != 0
 		w.SegMode = p.Seg
@@ -57,6 +66,7 @@ func execC11(t *testing.T, p Plan, src kernel.Source) Result {
 		}
 		runtime.ReadMemStats(&m1)
 		alloc := int64(m1.TotalAlloc - m0.TotalAlloc)
+		big = alloc > 64<<20
 		allowed := int64(1<<20) + 4*p.X["declared"]
 		if alloc > allowed {
 			viol("allocation", class, "%s: %d bytes were allocated while decoding; the frame consistently declares %d bytes", desc, alloc, p.X["declared"])
